@@ -26,6 +26,7 @@ Decides the mechanism, not the bytes on disk; assumes callers do not hand in a S
 }
 
 func runC11(w *World, r *Report) {
+	initOpenFlags(w)
 	c11Gate(w, r)
 	c11GateSemantics(w, r)
 	c11ModePlumbing(w, r)
@@ -197,14 +198,40 @@ func c11GateSemantics(w *World, r *Report) {
 
 // ---- C11-c -----------------------------------------------------------------------------------
 
-const (
-	oWRONLY = 0x1
-	oRDWR   = 0x2
-	oAPPEND = 0x400
-	oCREATE = 0x40
-	oTRUNC  = 0x200
-	oEXCL   = 0x80
+// open flags: values of the os.O_* constants in the configuration being analysed (they differ between GOOS values;
+// the defaults are linux's and are replaced by initOpenFlags from the loaded program).
+var (
+	oWRONLY int64 = 0x1
+	oRDWR   int64 = 0x2
+	oAPPEND int64 = 0x400
+	oCREATE int64 = 0x40
+	oTRUNC  int64 = 0x200
+	oEXCL   int64 = 0x80
 )
+
+func initOpenFlags(w *World) {
+	pkg := w.Prog.ImportedPackage("os")
+	if pkg == nil {
+		fatalf("C11: package os not loaded")
+	}
+	get := func(name string, dst *int64) {
+		nc, ok := pkg.Members[name].(*ssa.NamedConst)
+		if !ok {
+			fatalf("C11: os.%s not found", name)
+		}
+		v, exact := constant.Int64Val(nc.Value.Value)
+		if !exact {
+			fatalf("C11: os.%s is not an integer constant", name)
+		}
+		*dst = v
+	}
+	get("O_WRONLY", &oWRONLY)
+	get("O_RDWR", &oRDWR)
+	get("O_APPEND", &oAPPEND)
+	get("O_CREATE", &oCREATE)
+	get("O_TRUNC", &oTRUNC)
+	get("O_EXCL", &oEXCL)
+}
 
 func c11ModePlumbing(w *World, r *Report) {
 	root := w.Pkg("")
